@@ -116,6 +116,10 @@ MaxPacketSize(mtu, fam) ==
     ELSE IF mtu > JumboMtu THEN mtu - IPv6Hdr - JumboOpt - UdpHdr
     ELSE mtu - IPv6Hdr - UdpHdr
 
+\* what the network allows, independent of the code's constants: the IP packet that carries a UDP datagram of n
+\* bytes (RFC 791: 20, RFC 8200: 40, RFC 768: 8, RFC 2675: the jumbo payload option when the 16-bit length overflows)
+WireSize(n, fam) == IF fam = "v4" THEN 20 + 8 + n ELSE IF 8 + n > 65535 THEN 40 + 8 + 8 + n ELSE 40 + 8 + n
+
 \* zerocopy.MaxHeadroom, zerocopy.UDPRelayHeadroom
 MaxHeadroom(h1, h2) == [front |-> Max2(h1.front, h2.front), rear |-> Max2(h1.rear, h2.rear)]
 RelayHeadroom(packer, unpacker) ==
@@ -193,6 +197,10 @@ RelayBuf(x) ==
 RelayMax(x, a) ==
     IF Up(x) THEN MaxPacketSize(x.cmtu, IF x.cp = "direct" THEN FamOf(a) ELSE x.ufam)
     ELSE MaxPacketSize(x.smtu, x.lfam)
+\* the link a packet travels on: its MTU and address family
+OriginFam(x) == IF Up(x) THEN x.lfam ELSE x.ufam
+RelayMtu(x) == IF Up(x) THEN x.cmtu ELSE x.smtu
+RelayFam(x, a) == IF Up(x) THEN (IF x.cp = "direct" THEN FamOf(a) ELSE x.ufam) ELSE x.lfam
 \* the address the relay's unpacker reports: the direct server reports its configured tunnel target, the
 \* direct client the datagram's source; the others what the wire carries
 UnpackedAddr(x) == IF OriginProto(x) = "direct" THEN x.a ELSE Norm(x.a)
@@ -297,8 +305,8 @@ InBuffer ==
     /\ Repacked => 0 <= r.lo /\ r.lo <= r.hi /\ r.hi <= rb.len /\ (~r.err => 0 <= r.start /\ r.start + r.len <= rb.len)
 \* a packed packet never exceeds the size derived from MTU and address family
 WithinMtu ==
-    /\ (Packed /\ ~o.err) => o.len <= o.max
-    /\ (Repacked /\ ~r.err) => r.len <= r.max
+    /\ (Packed /\ ~o.err) => o.len <= o.max /\ WireSize(o.len, OriginFam(c)) <= c.omtu
+    /\ (Repacked /\ ~r.err) => r.len <= r.max /\ WireSize(r.len, RelayFam(c, u1.a)) <= RelayMtu(c)
 \* exactly the payloads that cannot fit are refused
 TooBigIsRefused ==
     /\ Packed => (o.err <=> o.need > o.max)
